@@ -2,7 +2,8 @@
    Only statements, closed by [exact], and Print Assumptions. *)
 From Coq Require Import ZArith QArith Reals List Bool Arith.
 From BS Require Import Base.Arith Model.Term Model.Propensity Model.Interface Spec.RateLaws
-                       Proofs.RateProofs Proofs.InterfaceProofs.
+                       Proofs.RateProofs Proofs.InterfaceProofs
+                       Base.CyPrelude Gen.PropensityGen Proofs.TiePropensity Proofs.TieRate.
 Import ListNotations.
 Local Open Scope R_scope.
 
@@ -83,6 +84,77 @@ Example C01_example :
   = (150, 120, 75 # 2, 30)%Q.
 Proof. vm_compute. reflexivity. Qed.
 
+(* ---- The same statements about the definitions REGENERATED from bioscrape/types.pyx on this run (Gen/PropensityGen.v,
+   written by tools/tr_propensity.py): each class's four evaluators, resolved through the inheritance chain as a virtual
+   call is, equal the hand model's prop_eval for ANY arithmetic (so the bit-exact correspondence of the hand model at
+   doubles and the theorems over R are about one and the same term) ... *)
+Theorem C01_source_tie :
+  forall F (A : Arith F) m x p V t,
+  (forall o, gen_Constitutive A o m x p V t = prop_eval A (PConst (ConstitutivePropensity_rate_index o)) m x p V t) /\
+  (forall o, gen_Unimolecular A o m x p V t =
+             prop_eval A (PUni (UnimolecularPropensity_rate_index o) (UnimolecularPropensity_species_index o)) m x p V t) /\
+  (forall o, gen_Bimolecular A o m x p V t =
+             prop_eval A (PBi (BimolecularPropensity_rate_index o) (BimolecularPropensity_s1_index o) (BimolecularPropensity_s2_index o)) m x p V t) /\
+  (forall o, gen_PositiveHill A o m x p V t =
+             prop_eval A (PHillPos (PositiveHillPropensity_rate_index o) (PositiveHillPropensity_K_index o) (PositiveHillPropensity_n_index o)
+                                   (PositiveHillPropensity_s1_index o)) m x p V t) /\
+  (forall o, gen_PositiveProportionalHill A o m x p V t =
+             prop_eval A (PPropHillPos (PositiveProportionalHillPropensity_rate_index o) (PositiveProportionalHillPropensity_K_index o)
+                                       (PositiveProportionalHillPropensity_n_index o) (PositiveProportionalHillPropensity_s1_index o)
+                                       (PositiveProportionalHillPropensity_d_index o)) m x p V t) /\
+  (forall o, gen_NegativeHill A o m x p V t =
+             prop_eval A (PHillNeg (NegativeHillPropensity_rate_index o) (NegativeHillPropensity_K_index o) (NegativeHillPropensity_n_index o)
+                                   (NegativeHillPropensity_s1_index o)) m x p V t) /\
+  (forall o, gen_NegativeProportionalHill A o m x p V t =
+             prop_eval A (PPropHillNeg (NegativeProportionalHillPropensity_rate_index o) (NegativeProportionalHillPropensity_K_index o)
+                                       (NegativeProportionalHillPropensity_n_index o) (NegativeProportionalHillPropensity_s1_index o)
+                                       (NegativeProportionalHillPropensity_d_index o)) m x p V t) /\
+  (forall o, MassActionPropensity_num_species o = num_species (MassActionPropensity_sp_counts o) ->
+             gen_MassAction A o m x p V t =
+             prop_eval A (PMass (MassActionPropensity_k_index o) (MassActionPropensity_sp_inds o) (MassActionPropensity_sp_counts o)) m x p V t).
+Proof. exact @source_tie_all. Qed.
+
+(* ... hence the closed forms hold of the source's own evaluators: mass action of ANY order through the dispatch ... *)
+Theorem C01_source_massaction :
+  forall k rs x p V t, nonneg x -> 0 < V ->
+  gen_massaction_dispatch ArithR k rs Det x p V t = ma_det (rget p k) rs x /\
+  gen_massaction_dispatch ArithR k rs Vol x p V t = ma_det (rget p k) rs x * vol_factor V (length rs) /\
+  gen_massaction_dispatch ArithR k rs Stoch x p V t = ma_stoch (rget p k) rs x /\
+  gen_massaction_dispatch ArithR k rs StochVol x p V t = ma_stoch (rget p k) rs x * vol_factor V (length rs).
+Proof. exact source_massaction_closed_forms. Qed.
+
+(* ... and the Hill family (an object of a generated class is the record of its index attributes) *)
+Theorem C01_source_hill :
+  forall k K n s d x p V t,
+  let X := rget x s in let D := rget x d in
+  let kk := rget p k in let KK := rget p K in let nn := rget p n in
+  let oP := {| PositiveHillPropensity_rate_index := k; PositiveHillPropensity_K_index := K; PositiveHillPropensity_n_index := n; PositiveHillPropensity_s1_index := s |} in
+  let oN := {| NegativeHillPropensity_rate_index := k; NegativeHillPropensity_K_index := K; NegativeHillPropensity_n_index := n; NegativeHillPropensity_s1_index := s |} in
+  let oPP := {| PositiveProportionalHillPropensity_rate_index := k; PositiveProportionalHillPropensity_K_index := K; PositiveProportionalHillPropensity_n_index := n;
+                PositiveProportionalHillPropensity_s1_index := s; PositiveProportionalHillPropensity_d_index := d |} in
+  let oNP := {| NegativeProportionalHillPropensity_rate_index := k; NegativeProportionalHillPropensity_K_index := K; NegativeProportionalHillPropensity_n_index := n;
+                NegativeProportionalHillPropensity_s1_index := s; NegativeProportionalHillPropensity_d_index := d |} in
+  0 < V -> 1 + rpow (X / KK) nn <> 0 -> 1 + rpow (X / V / KK) nn <> 0 ->
+  (forall m, (m = Det \/ m = Stoch) ->
+     gen_PositiveHill ArithR oP m x p V t = hill_pos kk KK nn X /\
+     gen_NegativeHill ArithR oN m x p V t = hill_neg kk KK nn X /\
+     gen_PositiveProportionalHill ArithR oPP m x p V t = D * hill_pos kk KK nn X /\
+     gen_NegativeProportionalHill ArithR oNP m x p V t = D * hill_neg kk KK nn X) /\
+  (forall m, (m = Vol \/ m = StochVol) ->
+     gen_PositiveHill ArithR oP m x p V t = hill_pos kk KK nn (X / V) /\
+     gen_NegativeHill ArithR oN m x p V t = hill_neg kk KK nn (X / V) /\
+     gen_PositiveProportionalHill ArithR oPP m x p V t = D * hill_pos kk KK nn (X / V) /\
+     gen_NegativeProportionalHill ArithR oNP m x p V t = D * hill_neg kk KK nn (X / V)).
+Proof. exact source_hill_closed_forms. Qed.
+
+(* Non-vacuity of the regenerated definitions: the same numbers as C01_example, computed by the source's own loops. *)
+Example C01_source_example :
+  let x := [3; 5]%Q in let p := [2]%Q in
+  (gen_massaction_dispatch ArithQ 0 [0; 1; 1]%nat Det x p 2%Q 0%Q, gen_massaction_dispatch ArithQ 0 [0; 1; 1]%nat Stoch x p 2%Q 0%Q,
+   gen_massaction_dispatch ArithQ 0 [0; 1; 1]%nat Vol x p 2%Q 0%Q, gen_massaction_dispatch ArithQ 0 [0; 1; 1]%nat StochVol x p 2%Q 0%Q)
+  = (150, 120, 75 # 2, 30)%Q.
+Proof. vm_compute. reflexivity. Qed.
+
 Print Assumptions C01_massaction.
 Print Assumptions C01_ff_zero.
 Print Assumptions C01_ff_factorial.
@@ -92,3 +164,6 @@ Print Assumptions C01_interface_plain.
 Print Assumptions C01_interface_safe.
 Print Assumptions C01_safe_short.
 Print Assumptions C01_safe_scan_in_bounds.
+Print Assumptions C01_source_tie.
+Print Assumptions C01_source_massaction.
+Print Assumptions C01_source_hill.
